@@ -89,7 +89,7 @@ Proof.
     pose proof (slen_nonneg body) as Hb.
     assert (0 <= fold_right Z.add 0 (map (fun x => slen (snd x)) l)) as Hpos.
     { clear. induction l as [|x l IH]; simpl; [lia|]. pose proof (slen_nonneg (snd x)). lia. }
-    simpl load_go. rewrite Hn. cbn [te_size te_data te_rerr].
+    simpl load_go. rewrite Hn. cbn [te_size te_data te_rerr]. unfold entry_over_remaining, entry_over_file_limit, short_read, budget_exhausted.
     assert ((slen body >? rem) = false) as -> by lia.
     assert ((slen body >? maxf) = false) as -> by lia.
     assert (Z.min (slen body) rem = slen body) as -> by lia.
@@ -548,7 +548,7 @@ Section Ignore.
   Proof.
     induction walk as [|f walk IH]; simpl; auto.
     destruct (eff_ignored ignored (f_name f)); simpl; auto.
-    rewrite eff_ignored_none. destruct (slen (f_data f) >? maxf)%Z; auto. now rewrite IH.
+    rewrite eff_ignored_none. destruct (dir_file_over_limit (slen (f_data f)) maxf); auto. now rewrite IH.
   Qed.
 
   Lemma dir_files_kept walk fs :
@@ -557,7 +557,7 @@ Section Ignore.
     revert fs. induction walk as [|f walk IH]; simpl; intros fs H.
     - inversion H. constructor.
     - destruct (eff_ignored ignored (f_name f)) eqn:E; [auto|].
-      destruct (slen (f_data f) >? maxf)%Z; [discriminate|].
+      destruct (dir_file_over_limit (slen (f_data f)) maxf); [discriminate|].
       destruct (dir_files maxf ignored walk) as [|r]; [discriminate|]. inversion H; subst.
       constructor; auto.
   Qed.
